@@ -50,6 +50,10 @@ ATOMS = {
     'Other': (U.Other, _inst(U.Other)),
     'E': (U.E, _inst(U.E)),
     'N': (U.N, _inst(int)),
+    'IE': (U.IE, _inst(U.IE)),
+    'NL': (U.NL, lambda x, tower=False: isinstance(x, list) and all(isinstance(i, int) for i in x)),
+    'TL': (U.TL, lambda x, tower=False: isinstance(x, list) and all(isinstance(i, int) for i in x)),
+    'TU': (U.TU, _inst(int, str)),
     'T': (U.T, lambda x, tower=False: True),
     'TB': (U.TB, _inst(int)),
     'TC': (U.TC, _inst(int, str)),
@@ -71,7 +75,7 @@ ATOM_CLASS = {
 
 LITVALS = {
     '1': 1, '2': 2, '0': 0, 'True': True, 'False': False, "'a'": 'a', "'b'": 'b', "''": '', 'None': None,
-    "b'x'": b'x', 'E.A': U.E.A, 'E.B': U.E.B,
+    "b'x'": b'x', 'E.A': U.E.A, 'E.B': U.E.B, 'IE.X': U.IE.X, 'IE.Y': U.IE.Y,
 }
 
 # ---------------------------------------------------------------------------
@@ -249,7 +253,9 @@ def has_sampling(t) -> bool:
     """Does the term contain a node at which beartype may consult the random draw
     (sequence-like or quasi-iterable)?  Used only for the 'at most one draw' count (C02/O4)."""
     tag = t[0]
-    if tag in ('a', 'lit'):
+    if tag == 'a':
+        return t[1] in ('NL', 'TL')
+    if tag == 'lit':
         return False
     if tag == 'u':
         return any(has_sampling(m) for m in t[2:])
